@@ -1,6 +1,8 @@
 /-
 C05 — RRset signed data equals the RFC 4034/4035 canonical form.
-Property theorems about `Model/Tbs.lean` (the model of `TBS::new`) against `Spec/Rfc4034.lean`.
+Property theorems about `Model/Tbs.lean` (`tbsImpl`, the model of `TBS::new` as it is since the
+repair /repo 628570a) against `Spec/Rfc4034.lean`.  The regression theorems about the pre-repair
+model `tbsPreFix` are in `Proofs/C05PreFix.lean`.
 -/
 import HickoryVerif.Model.Tbs
 import HickoryVerif.Spec.Rfc4034
@@ -357,39 +359,6 @@ theorem canonList_none_of_mem (l : List Record) (r : Record) (hr : r ∈ l)
     · simp only [canonList, ih hr]
       cases canonBytes x.data <;> rfl
 
-theorem insert_map (le : Record → Record → Bool) (c : Record → Bytes) (a : Record) (s : List Record)
-    (h : ∀ y ∈ s, le a y = (compare (c a) (c y) != .gt) ∧ c a ≠ c y) :
-    (insertStable le a s).map c = insertCanon (c a) (s.map c) := by
-  induction s with
-  | nil => rfl
-  | cons y ys ih =>
-    obtain ⟨hle, hne⟩ := h y (by simp)
-    have hneq : compare (c a) (c y) ≠ .eq := fun h' => hne (Std.compare_eq_iff_eq.1 h')
-    simp only [insertStable, List.map_cons, insertCanon, hle]
-    cases hc : compare (c a) (c y) with
-    | lt => simp
-    | eq => exact absurd hc hneq
-    | gt =>
-      simp only [bne_self_eq_false, Bool.false_eq_true, ↓reduceIte, List.map_cons]
-      rw [ih (fun z hz => h z (by simp [hz]))]
-
-/-- Sorting records by a key that orders them like their canonical RDATA, when no two canonical
-RDATA coincide, yields the spec's canonical sequence. -/
-theorem sort_map (le : Record → Record → Bool) (c : Record → Bytes) (l : List Record)
-    (h : ∀ a ∈ l, ∀ b ∈ l, le a b = (compare (c a) (c b) != .gt))
-    (hnd : (l.map c).Pairwise (· ≠ ·)) :
-    (sortStable le l).map c = sortDistinct (l.map c) := by
-  induction l with
-  | nil => rfl
-  | cons a l ih =>
-    have h1 : sortStable le (a :: l) = insertStable le a (sortStable le l) := rfl
-    have h2 : sortDistinct ((a :: l).map c) = insertCanon (c a) (sortDistinct (l.map c)) := rfl
-    rw [List.map_cons, List.pairwise_cons] at hnd
-    rw [h1, h2, insert_map, ih (fun x hx y hy => h x (by simp [hx]) y (by simp [hy])) hnd.2]
-    intro y hy
-    rw [mem_sortStable] at hy
-    exact ⟨h a (by simp) y (by simp [hy]), hnd.1 (c y) (List.mem_map_of_mem hy)⟩
-
 theorem mem_collect {name : Name} {cls : Nat} {i : SigInput} {records : List Record} {r : Record}
     (h : r ∈ collect name cls i records) :
     r.cls = cls ∧ r.rtype = i.typeCovered ∧ Name.eq name r.name = true := by
@@ -397,32 +366,6 @@ theorem mem_collect {name : Name} {cls : Nat} {i : SigInput} {records : List Rec
   rw [List.mem_filter] at h
   simp only [Bool.and_eq_true, beq_iff_eq] at h
   exact ⟨h.2.1.1.symm, h.2.1.2.symm, h.2.2⟩
-
-/-- On the collected records `impl Ord for Record` reduces to TTL, then the `to_bytes()` key. -/
-theorem recordCmp_collect {name : Name} {cls : Nat} {i : SigInput} {records : List Record}
-    {a b : Record} (ha : a ∈ collect name cls i records) (hb : b ∈ collect name cls i records) :
-    recordCmp a b =
-      (match compare a.ttl b.ttl with
-       | .eq => compare (toBytes a.data) (toBytes b.data)
-       | o => o) := by
-  obtain ⟨hac, hat, han⟩ := mem_collect ha
-  obtain ⟨hbc, hbt, hbn⟩ := mem_collect hb
-  have hname : Name.cmp a.name b.name = .eq := by
-    rw [C04.cmp_eq_iff, C04.eq_iff]
-    have h1 := (C04.eq_iff _ _).1 han
-    have h2 := (C04.eq_iff _ _).1 hbn
-    exact ⟨h1.1.symm.trans h2.1, h1.2.symm.trans h2.2⟩
-  unfold recordCmp rdataCmp
-  simp only [hname, hac, hbc, hat, hbt, Std.ReflCmp.compare_self]
-  cases compare a.ttl b.ttl <;> rfl
-
-theorem recordLe_collect {name : Name} {cls : Nat} {i : SigInput} {records : List Record}
-    {a b : Record} (ha : a ∈ collect name cls i records) (hb : b ∈ collect name cls i records)
-    (httl : a.ttl = b.ttl) :
-    recordLe a b = (compare (toBytes a.data) (toBytes b.data) != .gt) := by
-  unfold recordLe
-  rw [recordCmp_collect ha hb, httl]
-  simp
 
 theorem sigInputEmit_eq (i : SigInput) : sigInputEmit i = rrsigRdataPrefix i := by
   simp [sigInputEmit, rrsigRdataPrefix]
@@ -439,123 +382,137 @@ def expected (name : Name) (cls : Nat) (i : SigInput) (records : List Record) : 
   | some b => if b.length > MAX_BUF then .err else .ok b
   | none => .err
 
-/-- The general form of the partial theorem: exactly what the proof needs of the RRset.
-`c r` is the canonical RDATA of `r`; the `to_bytes()` sort keys must order the collected records as
-their canonical RDATA do, the TTLs must agree, and no two canonical RDATA may coincide. -/
-theorem tbs_eq_spec_of_order (name : Name) (cls : Nat) (i : SigInput) (records : List Record)
-    (hb : C04.Bounded name) (c : Record → Bytes)
-    (henc : ∀ r ∈ collect name cls i records, canonBytes r.data = some (c r))
-    (hord : ∀ a ∈ collect name cls i records, ∀ b ∈ collect name cls i records,
-      compare (toBytes a.data) (toBytes b.data) = compare (c a) (c b))
-    (httl : ∀ a ∈ collect name cls i records, ∀ b ∈ collect name cls i records, a.ttl = b.ttl)
-    (hnd : ((collect name cls i records).map c).Pairwise (· ≠ ·)) :
+/-! ### `sort` + `dedup` of the canonical RDATA is the spec's canonical sequence -/
+
+theorem canonAll_eq (l : List Record) : canonAll l = canonList l := by
+  induction l with
+  | nil => rfl
+  | cons r rs ih =>
+    simp only [canonAll, canonList, ih]
+    cases canonBytes r.data <;> cases canonList rs <;> rfl
+
+theorem head_dedupAdj (y : Bytes) (ys : List Bytes) : ∃ t, dedupAdj (y :: ys) = y :: t := by
+  induction ys generalizing y with
+  | nil => exact ⟨[], rfl⟩
+  | cons z zs ih =>
+    by_cases h : y = z
+    · obtain ⟨t, ht⟩ := ih z
+      exact ⟨t, by simp [dedupAdj, h, ht]⟩
+    · exact ⟨dedupAdj (z :: zs), by simp [dedupAdj, h]⟩
+
+theorem dedupAdj_cons_ne {y z : Bytes} (zs : List Bytes) (h : y ≠ z) :
+    dedupAdj (y :: z :: zs) = y :: dedupAdj (z :: zs) := by simp [dedupAdj, h]
+
+theorem dedupAdj_cons_eq (y : Bytes) (zs : List Bytes) :
+    dedupAdj (y :: y :: zs) = dedupAdj (y :: zs) := by simp [dedupAdj]
+
+theorem insertStable_head (x z : Bytes) (zs : List Bytes) :
+    ∃ h t, insertStable bytesLe x (z :: zs) = h :: t ∧ (h = x ∨ h = z) := by
+  simp only [insertStable]
+  split
+  · exact ⟨x, z :: zs, rfl, Or.inl rfl⟩
+  · exact ⟨z, _, rfl, Or.inr rfl⟩
+
+/-- `sort` then `dedup` commutes with the spec's insertion into a strictly sorted set -/
+theorem dedup_insert (x : Bytes) (s : List Bytes) :
+    dedupAdj (insertStable bytesLe x s) = insertCanon x (dedupAdj s) := by
+  induction s with
+  | nil => rfl
+  | cons y ys ih =>
+    cases hc : compare x y with
+    | lt =>
+      have hne : x ≠ y := fun h => by subst h; simp at hc
+      obtain ⟨t, ht⟩ := head_dedupAdj y ys
+      simp only [insertStable, bytesLe, hc]
+      simp only [bne_iff_ne, ne_eq, reduceCtorEq, not_false_eq_true, ↓reduceIte]
+      rw [dedupAdj_cons_ne _ hne, ht]
+      simp [insertCanon, hc]
+    | eq =>
+      have he : x = y := Std.compare_eq_iff_eq.1 hc
+      subst he
+      obtain ⟨t, ht⟩ := head_dedupAdj x ys
+      simp only [insertStable, bytesLe, hc]
+      simp only [bne_iff_ne, ne_eq, reduceCtorEq, not_false_eq_true, ↓reduceIte]
+      rw [dedupAdj_cons_eq, ht]
+      simp [insertCanon]
+    | gt =>
+      have hne : y ≠ x := fun h => by subst h; simp at hc
+      have hins : insertStable bytesLe x (y :: ys) = y :: insertStable bytesLe x ys := by
+        simp [insertStable, bytesLe, hc]
+      rw [hins]
+      cases ys with
+      | nil =>
+        simp [insertStable, dedupAdj, hne, insertCanon, hc]
+      | cons z zs =>
+        by_cases hyz : y = z
+        · subst hyz
+          have hins2 : insertStable bytesLe x (y :: zs) = y :: insertStable bytesLe x zs := by
+            simp [insertStable, bytesLe, hc]
+          rw [dedupAdj_cons_eq y zs, ← ih, hins2, dedupAdj_cons_eq]
+        · obtain ⟨h, t, ht, hh⟩ := insertStable_head x z zs
+          have hyh : y ≠ h := by
+            rcases hh with rfl | rfl
+            · exact hne
+            · exact hyz
+          rw [ht, dedupAdj_cons_ne _ hyh, ← ht, ih, dedupAdj_cons_ne _ hyz]
+          simp [insertCanon, hc]
+
+theorem dedup_sort (l : List Bytes) : dedupAdj (sortStable bytesLe l) = sortDistinct l := by
+  induction l with
+  | nil => rfl
+  | cons x xs ih =>
+    have h1 : sortStable bytesLe (x :: xs) = insertStable bytesLe x (sortStable bytesLe xs) := rfl
+    have h2 : sortDistinct (x :: xs) = insertCanon x (sortDistinct xs) := rfl
+    rw [h1, h2, dedup_insert, ih]
+
+/-- **Signed data (`tbs_eq_spec`, full strength).**  For every owner name, class, RRSIG parameter
+tuple and record list — any type, any order, duplicates, mixed-case owner and RDATA names, differing
+TTLs, foreign records — `TBS::from_input` returns exactly the RFC 4035 §5.3.2 signed data: the RRSIG
+RDATA without signature, then each *distinct* RR in RFC 4034 §6.3 canonical order, owner lower-cased
+and wildcard-reduced per the Labels field, original TTL, §6.2 canonical RDATA (or an error when the
+RRSIG must not be used, an RDATA has no wire form, or the data exceeds the 65 535-octet buffer). -/
+theorem tbs_eq_spec (name : Name) (cls : Nat) (i : SigInput) (records : List Record)
+    (hb : C04.Bounded name) :
     tbsImpl name cls i records = expected name cls i records := by
-  have hsort : (sortStable recordLe (collect name cls i records)).map c
-      = sortDistinct ((collect name cls i records).map c) :=
-    sort_map recordLe c _ (fun a ha b hb' => by
-      rw [recordLe_collect ha hb' (httl a ha b hb'), hord a ha b hb']) hnd
-  have hcl : canonList (sortStable recordLe (collect name cls i records))
-      = some (sortDistinct ((collect name cls i records).map c)) := by
-    rw [canonList_of_all _ c (fun r hr => henc r ((mem_sortStable _ _ _).1 hr)), hsort]
   have hdn := determine_name_spec name i.numLabels hb
   unfold tbsImpl expected signedData
-  simp only [emitRecords_eq, hcl, canonicalRdatas_eq, canonList_of_all _ c henc, Option.map_some,
-    sigInputEmit_eq, emitRR_eq]
-  cases hd : determineName name i.numLabels with
-  | ok n =>
-    rw [hd] at hdn
-    cases hs : signedOwner name i.numLabels with
-    | none => rw [hs] at hdn; simp [Outcome.map] at hdn
-    | some w =>
-      rw [hs] at hdn
-      simp only [Outcome.map, Outcome.ok.injEq] at hdn
-      simp only [hdn]
-  | err =>
-    rw [hd] at hdn
-    cases hs : signedOwner name i.numLabels with
-    | none => rfl
-    | some w => rw [hs] at hdn; simp [Outcome.map] at hdn
-  | panic s =>
-    rw [hd] at hdn
-    cases hs : signedOwner name i.numLabels <;> rw [hs] at hdn <;> simp [Outcome.map] at hdn
-
-/-! ### the three decidable hypotheses (the classes the harness computes) -/
-
-theorem sameTtl_spec {l : List Record} (h : sameTtl l = true) :
-    ∀ a ∈ l, ∀ b ∈ l, a.ttl = b.ttl := by
-  cases l with
-  | nil => intro a ha; simp at ha
-  | cons r rs =>
-    simp only [sameTtl, List.all_eq_true, beq_iff_eq] at h
-    have key : ∀ a ∈ r :: rs, a.ttl = r.ttl := by
-      intro a ha
-      rcases List.mem_cons.1 ha with rfl | ha
-      · rfl
-      · exact h a ha
-    intro a ha b hb
-    rw [key a ha, key b hb]
-
-theorem rdataCaseCanonical_spec {l : List Record} (h : rdataCaseCanonical l = true) :
-    ∀ r ∈ l, canonBytes r.data = some (toBytes r.data) := by
-  simp only [rdataCaseCanonical, List.all_eq_true, beq_iff_eq] at h
-  exact h
-
-theorem hasDup_spec {l : List Record} (c : Record → Bytes)
-    (henc : ∀ r ∈ l, canonBytes r.data = some (c r)) (h : hasDup l = false) :
-    (l.map c).Pairwise (· ≠ ·) := by
-  induction l with
-  | nil => simp
-  | cons r rs ih =>
-    simp only [hasDup, Bool.or_eq_false_iff, List.any_eq_false, beq_iff_eq] at h
-    rw [List.map_cons, List.pairwise_cons]
-    refine ⟨?_, ih (fun x hx => henc x (by simp [hx])) h.2⟩
-    intro b hb
-    obtain ⟨s, hs, rfl⟩ := List.mem_map.1 hb
-    intro heq
-    apply h.1 s hs
-    rw [henc s (by simp [hs]), henc r (by simp), heq]
-
-/-
-FULL STATEMENT (what the property says; the current code does **not** satisfy it — see the three
-counter-examples below, each confirmed on the real `TBS::from_input` by the harness):
-
-  theorem tbs_eq_spec (name cls i records) (hb : C04.Bounded name) :
-      tbsImpl name cls i records = expected name cls i records
--/
-
-/-- **Signed data, partial.**  For every owner, class, RRSIG parameter tuple and record list (any
-order, any noise records, any owner letter case): if the collected RRset has no two records with the
-same canonical RDATA (`hasDup = false`), all its TTLs agree (`sameTtl`) and every `to_bytes()` sort
-key is already the canonical RDATA (`rdataCaseCanonical`: embedded names lower-case, nothing
-compressed), then `TBS::from_input` returns exactly the RFC 4035 §5.3.2 signed data. -/
-theorem tbs_eq_spec_partial (name : Name) (cls : Nat) (i : SigInput) (records : List Record)
-    (hb : C04.Bounded name)
-    (hnd : hasDup (collect name cls i records) = false)
-    (httl : sameTtl (collect name cls i records) = true)
-    (hcase : rdataCaseCanonical (collect name cls i records) = true) :
-    tbsImpl name cls i records = expected name cls i records :=
-  tbs_eq_spec_of_order name cls i records hb (fun r => toBytes r.data)
-    (rdataCaseCanonical_spec hcase) (fun _ _ _ _ => rfl) (sameTtl_spec httl)
-    (hasDup_spec _ (rdataCaseCanonical_spec hcase) hnd)
+  simp only [canonAll_eq, canonicalRdatas_eq, sigInputEmit_eq, emitRR_eq]
+  cases hcl : canonList (collect name cls i records) with
+  | none => cases signedOwner name i.numLabels <;> rfl
+  | some rds =>
+    simp only [dedup_sort]
+    cases hd : determineName name i.numLabels with
+    | ok n =>
+      rw [hd] at hdn
+      cases hs : signedOwner name i.numLabels with
+      | none => rw [hs] at hdn; simp [Outcome.map] at hdn
+      | some w =>
+        rw [hs] at hdn
+        simp only [Outcome.map, Outcome.ok.injEq] at hdn
+        simp only [hdn]
+    | err =>
+      rw [hd] at hdn
+      cases hs : signedOwner name i.numLabels with
+      | none => rfl
+      | some w => rw [hs] at hdn; simp [Outcome.map] at hdn
+    | panic s =>
+      rw [hd] at hdn
+      cases hs : signedOwner name i.numLabels <;> rw [hs] at hdn <;> simp [Outcome.map] at hdn
 
 /-- RDATA without a wire form (a TXT string above 255 octets, an opaque type whose `emit` fails):
 both the code and the spec refuse. -/
 theorem tbs_unencodable (name : Name) (cls : Nat) (i : SigInput) (records : List Record)
     (r : Record) (hr : r ∈ collect name cls i records) (h : canonBytes r.data = none) :
-    tbsImpl name cls i records ≠ .ok b ∧ expected name cls i records = .err := by
-  have h1 : canonList (sortStable recordLe (collect name cls i records)) = none :=
-    canonList_none_of_mem _ r ((mem_sortStable _ _ _).2 hr) h
+    tbsImpl name cls i records = .err ∧ expected name cls i records = .err := by
   have h2 : canonList (collect name cls i records) = none := canonList_none_of_mem _ r hr h
   constructor
   · unfold tbsImpl
-    simp only [emitRecords_eq, h1, Option.map_none]
-    cases determineName name i.numLabels <;> simp
+    simp only [canonAll_eq, h2]
   · unfold expected signedData
     simp only [canonicalRdatas_eq, h2]
     cases signedOwner name i.numLabels <;> rfl
 
-/-! ### concrete values: non-vacuity, and the counter-examples outside each hypothesis
-(the replay inputs of the three findings; the same lines are in `corpus/C05/deviations.case`) -/
+/-! ### concrete values (also the inputs of the regression counter-examples in `C05PreFix`) -/
 
 /-- `example.com.` -/
 def exampleCom : Name := ⟨[[101, 120, 97, 109, 112, 108, 101], [99, 111, 109]], true⟩
@@ -572,47 +529,20 @@ def sigOf (tc : Nat) : SigInput :=
 def nsRec (n : Name) : Record := ⟨exampleCom, 2, 1, 3600, .ns n⟩
 def aRec (ttl : Nat) (o : Bytes) : Record := ⟨exampleCom, 1, 1, ttl, .a o⟩
 
-/-- the hypotheses of `tbs_eq_spec_partial` are satisfiable by an RRset whose input order is not the
-canonical one (so the sort does work), and the theorem then gives the equality -/
+/-- `tbs_eq_spec` on the three inputs on which the pre-repair code deviated (letter case in RDATA,
+a duplicated record, differing TTLs): computed, not only implied -/
 example :
-    C04.Bounded exampleCom ∧
-    hasDup (collect exampleCom 1 (sigOf 2) [nsRec nsexampleNet, nsRec nsExampleCom]) = false ∧
-    sameTtl (collect exampleCom 1 (sigOf 2) [nsRec nsexampleNet, nsRec nsExampleCom]) = true ∧
-    rdataCaseCanonical (collect exampleCom 1 (sigOf 2) [nsRec nsexampleNet, nsRec nsExampleCom]) = true ∧
-    sortStable recordLe [nsRec nsexampleNet, nsRec nsExampleCom] = [nsRec nsExampleCom, nsRec nsexampleNet] ∧
-    (tbsImpl exampleCom 1 (sigOf 2) [nsRec nsexampleNet, nsRec nsExampleCom]).isOk = true := by
-  decide
-
-/-- **Deviation 1 (`tbs-order-noncanonical-rdata-case`).**  NS RRset `{ns.Example.net., ns.example.com.}`:
-the sort key keeps the letter case, `E` (0x45) sorts before `e` (0x65), so the `net` record is
-signed first although its canonical RDATA sorts after the `com` record's. -/
-theorem counterexample_rdata_case :
-    hasDup (collect exampleCom 1 (sigOf 2) [nsRec nsExampleNet, nsRec nsExampleCom]) = false ∧
-    sameTtl (collect exampleCom 1 (sigOf 2) [nsRec nsExampleNet, nsRec nsExampleCom]) = true ∧
-    rdataCaseCanonical (collect exampleCom 1 (sigOf 2) [nsRec nsExampleNet, nsRec nsExampleCom]) = false ∧
     tbsImpl exampleCom 1 (sigOf 2) [nsRec nsExampleNet, nsRec nsExampleCom]
-      ≠ expected exampleCom 1 (sigOf 2) [nsRec nsExampleNet, nsRec nsExampleCom] := by
-  decide
-
-/-- **Deviation 2 (`tbs-duplicate-rr-kept`).**  A record presented twice is signed twice
-(RFC 4034 §6.3: all but one of the duplicates MUST be removed). -/
-theorem counterexample_duplicate :
-    hasDup (collect exampleCom 1 (sigOf 2) [nsRec nsExampleCom, nsRec nsExampleCom]) = true ∧
-    sameTtl (collect exampleCom 1 (sigOf 2) [nsRec nsExampleCom, nsRec nsExampleCom]) = true ∧
-    rdataCaseCanonical (collect exampleCom 1 (sigOf 2) [nsRec nsExampleCom, nsRec nsExampleCom]) = true ∧
+      = expected exampleCom 1 (sigOf 2) [nsRec nsExampleNet, nsRec nsExampleCom] ∧
     tbsImpl exampleCom 1 (sigOf 2) [nsRec nsExampleCom, nsRec nsExampleCom]
-      ≠ expected exampleCom 1 (sigOf 2) [nsRec nsExampleCom, nsRec nsExampleCom] := by
+      = expected exampleCom 1 (sigOf 2) [nsRec nsExampleCom, nsRec nsExampleCom] ∧
+    tbsImpl exampleCom 1 (sigOf 1) [aRec 300 [10, 0, 0, 2], aRec 60 [10, 0, 0, 9]]
+      = expected exampleCom 1 (sigOf 1) [aRec 300 [10, 0, 0, 2], aRec 60 [10, 0, 0, 9]] ∧
+    (tbsImpl exampleCom 1 (sigOf 2) [nsRec nsExampleNet, nsRec nsExampleCom]).isOk = true ∧
+    tbsImpl exampleCom 1 (sigOf 2) [nsRec nsExampleNet, nsRec nsExampleCom]
+      = tbsImpl exampleCom 1 (sigOf 2) [nsRec nsExampleCom, nsRec nsexampleNet, nsRec nsExampleNet] := by
   decide
 
-/-- **Deviation 3 (`tbs-order-ttl-before-rdata`).**  A RRset `{10.0.0.2 (TTL 300), 10.0.0.9 (TTL 60)}`:
-`impl Ord for Record` looks at the TTL before the RDATA, so `10.0.0.9` is signed first. -/
-theorem counterexample_ttl :
-    hasDup (collect exampleCom 1 (sigOf 1) [aRec 300 [10, 0, 0, 2], aRec 60 [10, 0, 0, 9]]) = false ∧
-    sameTtl (collect exampleCom 1 (sigOf 1) [aRec 300 [10, 0, 0, 2], aRec 60 [10, 0, 0, 9]]) = false ∧
-    rdataCaseCanonical (collect exampleCom 1 (sigOf 1) [aRec 300 [10, 0, 0, 2], aRec 60 [10, 0, 0, 9]]) = true ∧
-    tbsImpl exampleCom 1 (sigOf 1) [aRec 300 [10, 0, 0, 2], aRec 60 [10, 0, 0, 9]]
-      ≠ expected exampleCom 1 (sigOf 1) [aRec 300 [10, 0, 0, 2], aRec 60 [10, 0, 0, 9]] := by
-  decide
 
 /-- `determine_name_spec` on concrete values: `*.example.com.` with Labels 2 keeps the owner,
 `ns.example.com.` with Labels 1 becomes `*.com.`, Labels 4 is refused. -/
@@ -624,3 +554,4 @@ example :
   decide
 
 end HickoryVerif.C05
+
